@@ -539,6 +539,7 @@ NODES_MANY = ['n%03d' % i for i in range(50)]
                     'cm0': (1, 15), 'cm1': (1, 15)},
             shapes={'quick': [{'_ranges': {'cm0': (1, 3), 'cm1': (1, 3)}}],
                     'thorough': [{}]},
+            partition={'quick': ('n', 5), 'thorough': ('cm0', 15)},
             timeout={'quick': 300, 'thorough': 900},
             funcs=['radical/pilot/agent/launch_method/srun.py:'
                    'Srun.get_launch_cmds',
